@@ -7,7 +7,8 @@ rs2lean.py -- regenerate Lean definitions from the Rust source text of the crate
 PARSES (tokenizer + recursive-descent parser, below) the bodies of the arithmetic functions and prints one Lean `def`
 per Rust function into
   <out>/Bi.lean   (namespace SLV.Gen)      from  approx_ext.rs, errors.rs, bi.rs, convert.rs
-  <out>/Mul.lean  (namespace SLV.Gen.Mul)  from  mul.rs, mul/non_labeled.rs, mul/labeled.rs
+  <out>/Mul.lean  (namespace SLV.Gen.Mul)  from  mul.rs, mul/non_labeled.rs, mul/labeled.rs,
+                                                 multi_array/non_labeled.rs, multi_array/labeled.rs (only `==`, see below)
 The hand-written files SLV/Gen/BiTie.lean and SLV/Gen/MulTie.lean prove (kernel-checked) that every generated
 definition equals the hand-written model (theorem gen_<lean name>_eq); an edit of any expression in the Rust text
 changes the generated term and the corresponding theorem stops checking.
@@ -32,9 +33,28 @@ on TYPE texts -- impl headers, parameter types, where clauses -- never on a form
              refused), `match op { A | B if g => e, .. }`, struct literals, macros
              `ulps_eq!(a, b)` `matches!(x, P)`, `return`
 What the back ends (sections 5-6) accept of it is narrower and strict: every construct they do not know makes the
-translator exit with status 2 and a message `rs2lean: <file>: fn <name>: unsupported <construct>`; nothing is
-written then (a broken tie, which is the intended outcome).  Section 7 pins the accessors that are translated by
-convention.
+function a hole (`UNTRANSLATABLE <file> fn <name>: unsupported <construct>`, exit status 3: exactly its tie breaks,
+which is the intended outcome).  Section 7 pins the accessors that are translated by convention.
+
+Comparisons (property C20; section 5b; model SLV/Model/Eq.lean; the definitions take `[CmpScalar α]`):
+  * BOpinion_abs_diff_eq / BOpinion_relative_eq / BOpinion_ulps_eq  (Bi.lean; ties gen_BOpinion_{abs_diff_eq,relative_eq,
+    ulps_eq}_eq): the bodies of `impl AbsDiffEq / RelativeEq / UlpsEq for BOpinion<$ft>` inside `impl_bop!` are
+    TRANSLATED (CmpEmit): on a scalar receiver `r.abs_diff_eq(s, e)` ↦ `Cmp.absDiffEq r s e`, `r.relative_eq(s, e, m)` ↦
+    `Cmp.relativeEq r s e m`, `r.ulps_eq(s, e, k)` ↦ `Cmp.ulpsEq r s e k` (argument order preserved), `&&` / `||` / `let`
+    as everywhere; `other` ↦ y, `Self::Epsilon` ↦ α, `u32` ↦ Nat.  `default_epsilon`, `default_max_relative`,
+    `default_max_ulps` (`<$ft as Trait>::default_..()`) and `type Epsilon = <$ft as AbsDiffEq>::Epsilon;` are TEXT PINS:
+    guard groups bop_cmp_epsilon (named by all three targets), bop_cmp_max_relative, bop_cmp_max_ulps.
+  * eq_BSimplex, eq_BOpinion (Bi.lean), eq_Simplex, eq_OpinionBase, eq_MArr1/2/3, eq_MArrD1/2/3 (Mul.lean; ties
+    gen_eq_<Type>_eq): MARKER definitions of `==` (EqEmit).  Derived `==`: the definition is the `&&`, in declaration
+    order, of the `==` of the struct's fields (field list read from the source; spec["fields"] gives the Lean text per
+    `(field, type)`, an unknown field is refused), under the guard that the attribute line in front of the struct is
+    still `#[derive(.. PartialEq ..)]` and the file contains no hand-written `impl .. PartialEq .. for <Type>`.
+    Hand-written `==` (`impl cmp::PartialEq for MArrD{1,2,3}`): the body of `fn eq` must be `self.inner == other.inner`
+    (generally: a `&&` of `self.f == other.f` over every field that is not a zero-sized marker), no `fn ne`.  A nested
+    container's `==` relies on the inner type's (spec["needs"], or a call of the inner marker): MArr1 -> MArr2 -> MArr3,
+    MArrD1 -> MArrD2 -> MArrD3, Simplex -> OpinionBase, (mul.rs Simplex, Simplex1d alias) -> BSimplex -> BOpinion.
+    A violated guard is reported like every hole (`UNTRANSLATABLE <file> fn eq_<Type>: convention guard: ..`, exit 3):
+    the marker has no definition and gen_eq_<Type>_eq (and the dependent ones) fail with an unknown identifier.
 python3 standard library only.
 """
 import sys, os, re, hashlib, argparse
@@ -1213,7 +1233,8 @@ class BiEmit(Emit):
         if self.spec.get("callee_try_new"):
             # `Self::try_new(b, d, u, a).unwrap()` : inside `new` the callee is the generated try_new
             tt = tt.replace("BOp.tryNew", "SLV.Gen.try_new")
-        return "def %s {α : Type} [Scalar α] %s : %s :=\n%s\n" % (lean_name, " ".join(binders), self.rty, ind(tt))
+        return "def %s {α : Type} [%s α] %s : %s :=\n%s\n" % (lean_name, getattr(self, "INST", "Scalar"), " ".join(binders),
+                                                          self.rty, ind(tt))
 
 
 KINDS = {"num", "str", "path", "un", "bin", "field", "mcall", "call", "index", "try", "tuple", "paren", "array",
@@ -1337,6 +1358,304 @@ class ConvEmit(Emit):
         self.fail("expression form `%s`" % describe(e))
 
 
+# ------------------------------------------------------------------------------------------------
+# 5b. back ends for the comparison impls (property C20; model: SLV/Model/Eq.lean, `[CmpScalar α]`)
+# ------------------------------------------------------------------------------------------------
+class CmpEmit(BiEmit):
+    """`impl AbsDiffEq / RelativeEq / UlpsEq for BOpinion<$ft>` (src/bi.rs, inside `impl_bop!`).
+    Conventions: `other: &Self` ↦ y : BOp α;  `Self::Epsilon` ↦ α (pinned: `type Epsilon = <$ft as AbsDiffEq>::Epsilon`,
+    guard group `bop_cmp_epsilon`, and approx's `Epsilon = Self` for f32 / f64);  `u32` ↦ Nat;  on a SCALAR receiver
+    (a component accessor `self.b()`, `other.a()`, `self.base_rate`, a scalar parameter, arithmetic on those)
+        r.abs_diff_eq(s, e) ↦ Cmp.absDiffEq r s e      r.relative_eq(s, e, m) ↦ Cmp.relativeEq r s e m
+        r.ulps_eq(s, e, k)  ↦ Cmp.ulpsEq r s e k       (approx-0.5.1's scalar comparisons, transcribed in Eq.lean)
+    argument order preserved.  Anything else (a comparison written out with `f64::from`, `.abs()`, an early `return`,
+    a comparison on a non-scalar receiver) is outside the subset: the function becomes a hole."""
+    INST = "CmpScalar"
+    CMPS = {"abs_diff_eq": ("Cmp.absDiffEq", ["S", "S"]), "relative_eq": ("Cmp.relativeEq", ["S", "S", "S"]),
+            "ulps_eq": ("Cmp.ulpsEq", ["S", "S", "N"])}
+
+    def signature(self):
+        sc, binders = {}, []
+        self.scalars, self.nats, self.bops = set(), set(), set()
+        for pat, ty in self.item.params:
+            if pat == "self":
+                sc["self"] = "x"
+                binders.append("(x : BOp α)")
+                continue
+            if pat[0] != "pid":
+                self.fail("parameter pattern")
+            n = pat[1]
+            if n in ("x", "y"):
+                self.fail("parameter name `%s` clashing with a generated parameter name" % n)
+            if ty == "&Self":
+                ln = "y" if n == "other" else lname(n)
+                sc[n] = ln
+                binders.append("(%s : BOp α)" % ln)
+                self.bops.add(n)
+            elif ty in ("Self::Epsilon", "$ft"):
+                sc[n] = lname(n)
+                binders.append("(%s : α)" % lname(n))
+                self.scalars.add(n)
+            elif ty == "u32":
+                sc[n] = lname(n)
+                binders.append("(%s : Nat)" % lname(n))
+                self.nats.add(n)
+            else:
+                self.fail("parameter type `%s`" % ty)
+        return sc, binders
+
+    def kind_of(self, e, sc):
+        """"S" scalar | "N" the u32 parameter | None (unknown): a light kind check, so that an ill-kinded comparison is
+        refused here (= a hole) and not only by --validate"""
+        k = e[0]
+        if k == "paren":
+            return self.kind_of(e[1], sc)
+        if k == "un" and e[1] in ("*", "&"):
+            return self.kind_of(e[2], sc)
+        if k == "path" and len(e[1]) == 1:
+            return "S" if e[1][0] in self.scalars else "N" if e[1][0] in self.nats else None
+        if k == "mcall" and not e[3] and self.is_bop(e[1], sc) and e[2] in ("b", "d", "u", "a"):
+            return "S"
+        if k == "field" and self.is_bop(e[1], sc) and e[2] == "base_rate":
+            return "S"
+        if k == "bin" and e[1] in ("+", "-", "*", "/"):
+            return "S" if self.kind_of(e[2], sc) == "S" and self.kind_of(e[3], sc) == "S" else None
+        if k == "num" and e[1] in self.SCALAR_LIT:
+            return "S"
+        return None
+
+    def ex_special(self, e, sc):
+        if e[0] == "mcall" and e[2] in self.CMPS:
+            fn, kinds = self.CMPS[e[2]]
+            parts = [e[1]] + list(e[3])
+            if len(parts) != len(kinds) + 1:
+                self.fail("`.%s(..)` with %d arguments" % (e[2], len(e[3])))
+            for part, want in zip(parts, ["S"] + kinds):
+                if self.kind_of(part, sc) != want:
+                    self.fail("`.%s(..)`: `%s` is not a %s (the comparison must delegate to the scalar type's `%s` "
+                              "on component accessors)" % (e[2], describe(part),
+                                                           "scalar" if want == "S" else "u32 parameter", e[2]))
+            return app(fn, *[self.ex(p_, sc) for p_ in parts])
+        return BiEmit.ex_special(self, e, sc)
+
+
+class StructItem:
+    """a `struct` item: attrs = token texts of the attributes in front of it, fields = [(name | tuple index, type text)]"""
+
+    def __init__(self, name, attrs, fields, span, fname):
+        self.name, self.attrs, self.fields, self.span, self.fname = name, attrs, fields, span, fname
+
+
+def scan_structs(text, fname):
+    toks = tokenize(text, fname)
+    out = []
+    for i, tk in enumerate(toks):
+        if not (tk.k == "id" and tk.v == "struct" and toks[i + 1].k == "id"):
+            continue
+        name = toks[i + 1].v
+        j = i
+        if j >= 4 and [t.v for t in toks[j - 4:j]] == ["pub", "(", "crate", ")"]:
+            j -= 4
+        elif j >= 1 and toks[j - 1].v == "pub":
+            j -= 1
+        attrs = []
+        while j >= 2 and toks[j - 1].k == "p" and toks[j - 1].v == "]":
+            d, k = 0, j - 1
+            while k >= 0:
+                if toks[k].k == "p" and toks[k].v == "]":
+                    d += 1
+                elif toks[k].k == "p" and toks[k].v == "[":
+                    d -= 1
+                    if d == 0:
+                        break
+                k -= 1
+            if k < 1 or toks[k - 1].v != "#":
+                break
+            attrs.insert(0, " ".join(t.v for t in toks[k - 1:j]))
+            j = k - 1
+        p = Parser(toks, fname, name)
+        p.i = i + 2
+
+        def skip_field_prefix():
+            while p.at("#"):
+                p.next()
+                p.expect("[")
+                d_ = 1
+                while d_:
+                    v_ = p.next()
+                    if v_.k == "eof":
+                        p.fail("attribute")
+                    d_ += {"[": 1, "]": -1}.get(v_.v, 0) if v_.k == "p" else 0
+            if p.at("pub"):
+                p.next()
+                if p.at("("):
+                    while not p.at(")"):
+                        p.next()
+                    p.next()
+        try:
+            if p.at("<"):
+                p.skip_angles()
+            fields = []
+            if p.at("("):
+                p.next()
+                while not p.at(")"):
+                    skip_field_prefix()
+                    fields.append((str(len(fields)), "".join(p.skip_type([",", ")"]))))
+                    if p.at(","):
+                        p.next()
+                p.next()
+                if p.at("where"):
+                    p.skip_type([";"])
+                p.expect(";")
+            else:
+                if p.at("where"):
+                    p.skip_type(["{", ";"])
+                if p.at(";"):
+                    p.next()
+                else:
+                    p.expect("{")
+                    while not p.at("}"):
+                        skip_field_prefix()
+                        fn_ = p.ident()
+                        p.expect(":")
+                        fields.append((fn_, "".join(p.skip_type([",", "}"]))))
+                        if p.at(","):
+                            p.next()
+                    p.next()
+        except Unsupported:
+            continue           # a struct outside the subset is not registered: a target that needs it finds 0 definitions
+        out.append(StructItem(name, attrs, fields, (toks[j].pos, toks[p.i - 1].pos + 1), fname))
+    return out
+
+
+def token_text(text, fname):
+    """the file as its token sequence joined by blanks (insensitive to white space and comments)"""
+    return " ".join(t.v for t in tokenize(text, fname)[:-1])
+
+
+def find_struct(structs, name, fname):
+    hits = [s for s in structs if s.name == name]
+    if len(hits) != 1:
+        raise Unsupported("%s: fn %s: expected exactly one `struct %s`, found %d" % (fname, name, name, len(hits)))
+    return hits[0]
+
+
+def check_derived_eq(structs, toktext, name, fname):
+    """convention guard of a DERIVED `==`: `struct <name>` carries `#[derive(.. PartialEq ..)]` and the file has no
+    hand-written `impl .. PartialEq .. for <name>` besides it"""
+    st = find_struct(structs, name, fname)
+    if not any(re.match(r"^# \[ derive \( (.* )?PartialEq( .*)? \) \]$", a) for a in st.attrs):
+        raise Unsupported("%s: fn %s: convention guard: `struct %s` no longer derives PartialEq (attributes: %s)"
+                          % (fname, name, name, "; ".join(st.attrs) or "none"))
+    m = re.search(r"\bimpl\b[^{};]*\bPartialEq\b[^{};]*\bfor (?:& )?(?:' \w+ )?%s\b" % re.escape(name), toktext)
+    if m:
+        raise Unsupported("%s: fn %s: convention guard: hand-written `%s` next to the derived PartialEq"
+                          % (fname, name, m.group(0)))
+    return st
+
+
+class EqEmit(Emit):
+    """`==` of the crate's own types (property C20), one marker definition `eq_<Type>` each.
+
+    DERIVED (`spec["derived"] = <struct>`; the item is the struct): `#[derive(PartialEq)]` on a struct is the `&&`, in
+    declaration order, of the `==` of its fields.  The guard `check_derived_eq` pins the derive attribute and the absence
+    of a hand-written impl; the field list is read from the source and every field `(name, type text)` must have an
+    entry in spec["fields"], which gives the Lean text of that field's `==` in the model's representation (`x`, `y` are
+    the two values).  spec["also"] = [(file, struct, [(field, type)])]: derived impls of OTHER files that the field `==`
+    delegates to (checked the same way, field list pinned);  spec["pins"] = [(file, regex on the token text, what)]: type
+    aliases that the convention relies on (exactly one match).
+
+    MANUAL (`spec["manual"] = <struct>`; the item is the `fn eq` of `impl cmp::PartialEq for <struct>`): the body must be
+    a `&&` of `self.f == other.f`; a field whose table entry is None is not compared (zero-sized marker) -- every other
+    field must be compared exactly once; the impl must not override `ne`.
+
+    Containers (`Vec<V>`, nested `MArr*` / `MArrD*`, `[T; 2]`) are flattened row-major in the model, their `==` is the
+    cell-wise `Cmp.tabEq`; the dependency of a nested container's `==` on the inner type's is spec["needs"]."""
+
+    def __init__(self, item, spec):
+        Emit.__init__(self, item)
+        self.spec = spec
+
+    def guard_fail(self, what):
+        raise Unsupported("%s: fn %s: convention guard: %s" % (self.item.fname, self.item.name, what))
+
+    def field_eq(self, st, fname_, seen):
+        table = {f: (ty, tx) for f, ty, tx in self.spec["fields"]}
+        ty = dict(st.fields).get(fname_)
+        if ty is None:
+            self.guard_fail("`==` on `%s`, which is not a field of `struct %s`" % (fname_, st.name))
+        if fname_ not in table or table[fname_][0] != ty:
+            self.guard_fail("field `%s: %s` of `struct %s` (no convention for its `==`)" % (fname_, ty, st.name))
+        if table[fname_][1] is None:
+            self.guard_fail("`==` on the marker field `%s`" % fname_)
+        if fname_ in seen:
+            self.guard_fail("field `%s` compared twice" % fname_)
+        seen.add(fname_)
+        return table[fname_][1]
+
+    def conj(self, e, st, seen):
+        if e[0] == "paren":
+            return self.conj(e[1], st, seen)
+        if e[0] == "bin" and e[1] == "&&":
+            l = self.conj(e[2], st, seen)
+            r = self.conj(e[3], st, seen)
+            return l + " && " + (r if e[3][0] != "bin" or e[3][1] != "&&" else "(" + r + ")")
+        if e[0] == "bin" and e[1] == "==" and e[2][0] == "field" and e[3][0] == "field" and e[2][2] == e[3][2] \
+                and e[2][1] == ("path", ["self"]) and e[3][1] == ("path", ["other"]):
+            return self.field_eq(st, e[2][2], seen)
+        self.guard_fail("expression form `%s` in a hand-written `eq` (expected `self.f == other.f [&& ..]`)" % describe(e))
+
+    def define(self, lean_name):
+        spec = self.spec
+        fname = self.item.fname
+
+        def other(ofile_):
+            try:
+                return token_text(self.load(ofile_)[0], ofile_), self.load_structs(ofile_)
+            except Fatal as e_:
+                self.guard_fail("%s" % e_)
+        for pfile, pre, what in spec.get("pins", ()):
+            n_ = len(re.findall(pre, other(pfile)[0]))
+            if n_ != 1:
+                self.guard_fail("expected exactly one %s in %s, found %d" % (what, pfile, n_))
+        for ofile, oname, ofields in spec.get("also", ()):
+            otoks, ostructs = other(ofile)
+            ost = check_derived_eq(ostructs, otoks, oname, ofile)
+            if ost.fields != ofields:
+                self.guard_fail("the fields of `struct %s` (%s) are no longer `%s`, found `%s`"
+                                % (oname, ofile, ofields, ost.fields))
+        if "derived" in spec:
+            st = check_derived_eq(self.structs, self.toktext, spec["derived"], fname)
+            seen = set()
+            parts = [self.field_eq(st, f, seen) for f, _ in st.fields]
+            if not parts:
+                self.guard_fail("`struct %s` without fields" % st.name)
+            body = " && ".join(parts)
+        else:
+            st = find_struct(self.structs, spec["manual"], fname)
+            it = self.item
+            got = [p[0] if p[0] == "self" else (p[0][1] if p[0][0] == "pid" else "?") for p in it.params]
+            if got != ["self", "other"] or [p[1] for p in it.params] != ["Self", "&Self"] or it.ret != "bool":
+                self.guard_fail("signature of `eq`")
+            hdr = it.ctx.split(" | ")[-1]
+            if [o for o in self.items if o.name == "ne" and o.ctx.split(" | ")[-1] == hdr]:
+                self.guard_fail("the impl overrides `ne`")
+            if any(re.match(r"^# \[ derive \( (.* )?PartialEq( .*)? \) \]$", a) for a in st.attrs):
+                self.guard_fail("`struct %s` derives PartialEq next to the hand-written impl" % st.name)
+            b = it.body
+            if b[1] or b[2] is None:
+                self.guard_fail("statements in a hand-written `eq`")
+            seen = set()
+            body = self.conj(b[2], st, seen)
+            table = {f: (ty, tx) for f, ty, tx in spec["fields"]}
+            for f, ty in st.fields:
+                if f not in table or table[f][0] != ty:
+                    self.guard_fail("field `%s: %s` of `struct %s` (no convention for its `==`)" % (f, ty, st.name))
+                if table[f][1] is not None and f not in seen:
+                    self.guard_fail("field `%s: %s` of `struct %s` is not compared" % (f, ty, st.name))
+        return "def %s {α : Type} [CmpScalar α] %s : Bool :=\n  %s\n" % (lean_name, spec["binders"], body)
+
+
 def find(items, name, ctx_re):
     hits = [it for it in items if it.name == name and re.search(ctx_re, it.ctx)]
     if len(hits) != 1:
@@ -1388,6 +1707,7 @@ GUARDS = {
 # (`productN_iter`, `MArrDN::productN`, `MArrN::productN` ↦ `outer2` / `outer3`, row-major, left-associated products).
 # A group is checked only for the targets that name it in spec["guards"]: a failure makes exactly those functions holes.
 ML, MU = "multi_array/labeled.rs", "multi_array/non_labeled.rs"
+CMP_CTX = r"impl_bop \| impl %s for BOpinion < \$ft >$"
 GUARD_GROUPS = {
     "marr_labeled_2": (ML, [
         ("product2_iter", r"^$", ["w0", "w1"], "{ iproduct ! ( w0 , w1 ) . map ( | ( & v0 , & v1 ) | v0 * v1 ) }"),
@@ -1408,12 +1728,31 @@ GUARD_GROUPS = {
         ("product3", r"Product3 < & \[ V ; D0 \] , & \[ V ; D1 \] , & \[ V ; D2 \] > for MArr3 < V , D0 , D1 , D2 >",
          ["w0", "w1", "w2"], "{ Self :: from_fn ( | d | w0 [ d [ 0 ] ] * w1 [ d [ 1 ] ] * w2 [ d [ 2 ] ] ) }"),
     ]),
+    # the defaults of the approximate comparisons of BOpinion<$ft> delegate to the scalar type's (text pins); the
+    # associated type `Epsilon` is the scalar type's (a `("@text", regex on the token text, what, short name)` entry: exactly one match)
+    "bop_cmp_epsilon": ("bi.rs", [
+        ("@text", r"impl AbsDiffEq for BOpinion < \$ft > \{ type Epsilon = < \$ft as AbsDiffEq > :: Epsilon ;",
+         "`type Epsilon = <$ft as AbsDiffEq>::Epsilon;` at the head of `impl AbsDiffEq for BOpinion<$ft>`", "Epsilon"),
+        ("default_epsilon", CMP_CTX % "AbsDiffEq", [], "{ < $ft as AbsDiffEq > :: default_epsilon ( ) }"),
+    ]),
+    "bop_cmp_max_relative": ("bi.rs", [
+        ("default_max_relative", CMP_CTX % "RelativeEq", [], "{ < $ft as RelativeEq > :: default_max_relative ( ) }"),
+    ]),
+    "bop_cmp_max_ulps": ("bi.rs", [
+        ("default_max_ulps", CMP_CTX % "UlpsEq", [], "{ < $ft as UlpsEq > :: default_max_ulps ( ) }"),
+    ]),
 }
 
 
 def check_guards(items, fname, text, guards=None):
     spans = []
     for name, ctx, params, body in (GUARDS[fname] if guards is None else guards):
+        if name == "@text":
+            n = len(re.findall(ctx, token_text(text, fname)))
+            if n != 1:
+                raise Unsupported("%s: fn %s: convention guard: expected exactly one %s, found %d"
+                                  % (fname, body, params, n))
+            continue
         it = find(items, name, ctx)
         got_params = [p[0] if p[0] == "self" else (p[0][1] if p[0][0] == "pid" else "?") for p in it.params]
         got = it.body_text().replace(", }", "}").replace(",}", "}")
@@ -1471,6 +1810,21 @@ def generate(out_name, src_dir, forced=None):
             except Unsupported as e:
                 raise Fatal("item scanner lost in %s: %s" % (fname, e))
         return cache[fname]
+    scache, tcache = {}, {}
+
+    def load_structs(fname):
+        if fname not in scache:
+            text_, _ = load(fname)
+            try:
+                scache[fname] = scan_structs(text_, fname)
+            except Unsupported as e:
+                raise Fatal("item scanner lost in %s: %s" % (fname, e))
+        return scache[fname]
+
+    def load_toktext(fname):
+        if fname not in tcache:
+            tcache[fname] = token_text(load(fname)[0], fname)
+        return tcache[fname]
     group_state = {}
 
     def group_failure(g):
@@ -1488,9 +1842,17 @@ def generate(out_name, src_dir, forced=None):
                 group_state[g] = "convention guard group `%s` of %s failed (%s): the helper is translated by convention" % (
                     g, gfile, m.group(1) if m else str(e)[:120])
         return group_state[g]
-    for fname, targets, guard_files in cfg["units"]:
-        text, items = load(fname)
+    for unit in cfg["units"]:
+        fname, targets, guard_files = unit[:3]
         poison = None
+        try:
+            text, items = load(fname)
+        except Fatal as e:
+            if len(unit) < 4 or not unit[3]:
+                raise
+            # a "soft" unit (only marker definitions come from it): the file is unusable => its targets are holes
+            sys.stderr.write("rs2lean: %s: %s: every target of this file becomes untranslatable\n" % (fname, e))
+            text, items, poison = "", [], "the source file is unusable (%s)" % str(e)[:120]
         try:
             for gf in guard_files:
                 gtext, gitems = load(gf)
@@ -1510,14 +1872,22 @@ def generate(out_name, src_dir, forced=None):
                 gf = group_failure(g)
                 if why is None and gf is not None:
                     why = gf
+            for nd in spec.get("needs", ()):
+                if why is None and nd in failed:
+                    why = "relies on the generated function `%s`, which is untranslatable" % nd
             try:
-                it = find(items, rust, ctx)
+                if poison is not None and not text:
+                    raise Unsupported("%s: fn %s: %s" % (fname, lean_name, poison))
+                it = find_struct(load_structs(fname), rust, fname) if "derived" in spec else find(items, rust, ctx)
                 span = text[it.span[0]:it.span[1]]
                 spans.append(span)
                 line = text.count("\n", 0, it.span[0]) + 1
                 if why is None:
                     em = spec["emit"](it, spec)
                     em.items = items
+                    if "derived" in spec or "manual" in spec:
+                        em.structs, em.toktext = load_structs(fname), load_toktext(fname)
+                        em.load, em.load_structs = load, load_structs
                     d = em.define(lean_name)
                     for f in failed:
                         if re.search(r"(?<![\w.])%s\.%s\b(?!\.)" % (re.escape(ns), re.escape(f)), d):
@@ -1535,7 +1905,7 @@ def generate(out_name, src_dir, forced=None):
                         % (rust, fname, line, sha(span)[:16], d))
     head = ("/-\n  GENERATED by /verif/tools/rs2lean.py from %s -- do not edit, regenerated on every run.\n"
             "  source-span sha256: %s\n%s-/\n%s\nnamespace %s\nopen Scalar\n\n") % (
-        ", ".join("src/" + u[0] for u in cfg["units"]), sha("\n".join(spans)), cfg["doc"],
+        ", ".join(dict.fromkeys("src/" + u[0] for u in cfg["units"])), sha("\n".join(spans)), cfg["doc"],
         "\n".join("import " + i for i in cfg["imports"]), ns)
     return head + "\n".join(defs) + "\nend %s\n" % ns, holes
 
@@ -2695,6 +3065,67 @@ CONVERT_TARGETS = [
 ]
 for _t in BI_TARGETS:
     _t[3].setdefault("emit", BiEmit)
+# ---- comparisons (property C20).  Approximate comparisons of BOpinion<$ft>: translated bodies (CmpEmit); the
+# `default_*` functions and `type Epsilon` are text pins (guard groups bop_cmp_*).
+CMP_TARGETS = [
+    ("BOpinion_abs_diff_eq", "abs_diff_eq", CMP_CTX % "AbsDiffEq",
+     {"owner": "BOpinion", "emit": CmpEmit, "guards": ["bop_cmp_epsilon"]}),
+    ("BOpinion_relative_eq", "relative_eq", CMP_CTX % "RelativeEq",
+     {"owner": "BOpinion", "emit": CmpEmit, "guards": ["bop_cmp_epsilon", "bop_cmp_max_relative"]}),
+    ("BOpinion_ulps_eq", "ulps_eq", CMP_CTX % "UlpsEq",
+     {"owner": "BOpinion", "emit": CmpEmit, "guards": ["bop_cmp_epsilon", "bop_cmp_max_ulps"]}),
+]
+# `==`: derived (`#[derive(.. PartialEq ..)]`, rust name = the struct) or hand-written (`fn eq`): marker definitions
+# eq_<Type> (EqEmit).  BSimplex ≙ α × α × α (b, d, u) = the fields of Simplex1d<T, 2> = Simplex<[T; 2], T>, in the
+# declaration order belief, uncertainty of `struct Simplex` (pinned: "also" / "pins").
+SIMPLEX_FIELDS = [("belief", "T"), ("uncertainty", "V")]
+BI_EQ_TARGETS = [
+    ("eq_BSimplex", "BSimplex", None,
+     {"emit": EqEmit, "derived": "BSimplex", "binders": "(x y : α × α × α)",
+      "fields": [("0", "Simplex1d<T,2>", "Scalar.eq x.1 y.1 && Scalar.eq x.2.1 y.2.1 && Scalar.eq x.2.2 y.2.2")],
+      "also": [("mul.rs", "Simplex", SIMPLEX_FIELDS)],
+      "pins": [("mul/non_labeled.rs", r"pub type Simplex1d < V , const N : usize > = Simplex < \[ V ; N \] , V > ;",
+                "`pub type Simplex1d<V, const N: usize> = Simplex<[V; N], V>;`")]}),
+    ("eq_BOpinion", "BOpinion", None,
+     {"emit": EqEmit, "derived": "BOpinion", "binders": "(x y : BOp α)",
+      "fields": [("simplex", "BSimplex<T>", "SLV.Gen.eq_BSimplex (x.b, x.d, x.u) (y.b, y.d, y.u)"),
+                 ("base_rate", "T", "Scalar.eq x.a y.a")]}),
+]
+BI_TARGETS += CMP_TARGETS + BI_EQ_TARGETS
+MUL_EQ_TARGETS = [
+    ("eq_Simplex", "Simplex", None,
+     {"emit": EqEmit, "derived": "Simplex", "binders": "{n : Nat} (x y : Simplex α n)",
+      "fields": [("belief", "T", "Cmp.tabEq x.b y.b"), ("uncertainty", "V", "Scalar.eq x.u y.u")]}),
+    ("eq_OpinionBase", "OpinionBase", None,
+     {"emit": EqEmit, "derived": "OpinionBase", "binders": "{n : Nat} (x y : Opinion α n)",
+      "fields": [("simplex", "S", "SLV.Gen.Mul.eq_Simplex x.simplex y.simplex"), ("base_rate", "T", "Cmp.tabEq x.a y.a")],
+      "pins": [("mul.rs", r"pub type Opinion < T , U > = OpinionBase < Simplex < T , U > , T > ;",
+                "`pub type Opinion<T, U> = OpinionBase<Simplex<T, U>, T>;`"),
+               ("mul.rs", r"pub type OpinionRef < 'a , T , U > = OpinionBase < & 'a Simplex < T , U > , & 'a T > ;",
+                "`pub type OpinionRef<'a, T, U> = OpinionBase<&'a Simplex<T, U>, &'a T>;`")]}),
+]
+MARR_EQ_TARGETS = [
+    ("eq_MArr1", "MArr1", None,
+     {"emit": EqEmit, "derived": "MArr1", "binders": "{n : Nat} (x y : Tab α n)",
+      "fields": [("0", "Vec<V>", "Cmp.tabEq x y")]}),
+    ("eq_MArr2", "MArr2", None,
+     {"emit": EqEmit, "derived": "MArr2", "binders": "{n0 n1 : Nat} (x y : Tab α (n0 * n1))",
+      "fields": [("0", "Vec<MArr1<V,K1>>", "Cmp.tabEq x y")], "needs": ["eq_MArr1"]}),
+    ("eq_MArr3", "MArr3", None,
+     {"emit": EqEmit, "derived": "MArr3", "binders": "{n0 n1 n2 : Nat} (x y : Tab α (n0 * n1 * n2))",
+      "fields": [("0", "Vec<MArr2<V,K1,K2>>", "Cmp.tabEq x y")], "needs": ["eq_MArr1", "eq_MArr2"]}),
+]
+MARRD_EQ_TARGETS = [
+    ("eq_MArrD1", "eq", r"PartialEq for MArrD1 <",
+     {"emit": EqEmit, "manual": "MArrD1", "binders": "{n : Nat} (x y : Tab α n)",
+      "fields": [("_marker", "PhantomData<D0>", None), ("inner", "Vec<V>", "Cmp.tabEq x y")]}),
+    ("eq_MArrD2", "eq", r"PartialEq for MArrD2 <",
+     {"emit": EqEmit, "manual": "MArrD2", "binders": "{n0 n1 : Nat} (x y : Tab α (n0 * n1))",
+      "fields": [("inner", "MArrD1<D0,MArrD1<D1,V>>", "Cmp.tabEq x y")], "needs": ["eq_MArrD1"]}),
+    ("eq_MArrD3", "eq", r"PartialEq for MArrD3 <",
+     {"emit": EqEmit, "manual": "MArrD3", "binders": "{n0 n1 n2 : Nat} (x y : Tab α (n0 * n1 * n2))",
+      "fields": [("inner", "MArrD1<D0,MArrD2<D1,D2,V>>", "Cmp.tabEq x y")], "needs": ["eq_MArrD1", "eq_MArrD2"]}),
+]
 LB_TARGETS = [
     ("product2_labeled", "product2", r"Product2 < OpinionRefD1 < 'a , D0 , V > , OpinionRefD1 < 'a , D1 , V > > for OpinionD2",
      {"rty": "Opinion α (n0 * n1)", "dims": {"D0": "n0", "D1": "n1", "MArrD2": "n0 * n1"}, "guards": ["marr_labeled_2"]}),
@@ -2716,23 +3147,31 @@ for _t in MUL_TARGETS + NL_TARGETS + LB_TARGETS + MERGE_TARGETS:
 
 OUTPUTS = {
     "Bi.lean": {
-        "ns": "SLV.Gen", "imports": ["SLV.Model.Bi"],
+        "ns": "SLV.Gen", "imports": ["SLV.Model.Bi", "SLV.Model.Eq"],
         "units": [("approx_ext.rs", APPROX_TARGETS, []), ("errors.rs", ERRORS_TARGETS, []),
                   ("bi.rs", BI_TARGETS, ["bi.rs"]), ("convert.rs", CONVERT_TARGETS, ["bi.rs", "mul.rs"])],
         "doc": "  Conventions: self ↦ x, rhs ↦ y, cond[i] ↦ cᵢ : α × α × α (b, d, u); Self::new / Self::try_new ↦\n"
                "  BOp.tryNew (panic ≙ error); `E?;` / `E.unwrap();` ↦ match on Except; an `if` statement that only\n"
                "  assigns deferred `let`s receives a copy of the continuation in every branch.\n"
+               "  Comparisons ([CmpScalar α]): other ↦ y, Self::Epsilon ↦ α, u32 ↦ Nat, r.abs_diff_eq(s, e) ↦ Cmp.absDiffEq r s e,\n"
+               "  r.relative_eq(s, e, m) ↦ Cmp.relativeEq r s e m, r.ulps_eq(s, e, k) ↦ Cmp.ulpsEq r s e k on scalar components;\n"
+               "  eq_<Type>: marker of the DERIVED `==` (`&&` of the fields' `==` in declaration order; exists only while the\n"
+               "  `#[derive(.. PartialEq ..)]` guard holds).\n"
                "  Tie theorems: SLV/Gen/BiTie.lean.\n"},
     "Mul.lean": {
-        "ns": "SLV.Gen.Mul", "imports": ["SLV.Model.Fuse", "SLV.Model.Cond", "SLV.Model.Prod"],
+        "ns": "SLV.Gen.Mul", "imports": ["SLV.Model.Fuse", "SLV.Model.Cond", "SLV.Model.Prod", "SLV.Model.Eq"],
         "units": [("mul.rs", MUL_TARGETS, ["mul.rs"]), ("mul/non_labeled.rs", NL_TARGETS, ["mul.rs"]),
-                  ("mul/labeled.rs", LB_TARGETS, ["mul.rs"]), ("mul.rs", MERGE_TARGETS, ["mul.rs"])],
+                  ("mul/labeled.rs", LB_TARGETS, ["mul.rs"]), ("mul.rs", MERGE_TARGETS, ["mul.rs"]),
+                  ("mul.rs", MUL_EQ_TARGETS, []), (MU, MARR_EQ_TARGETS, [], True), (ML, MARRD_EQ_TARGETS, [], True)],
         "doc": "  Conventions: a container type T/U/Cond over index type Idx|X ↦ size n, over Y ↦ size m;\n"
                "  T::from_fn(|i| e), T::map(|i| e) ↦ Vector.ofFn fun i : Fin n => e;  T::indexes().map(f).sum() ↦\n"
                "  Tab.sumIter (Vector.ofFn f);  .reduce(<V>::min).unwrap() ↦ Tab.reduceMin (Vector.ofFn f);\n"
                "  `for i in T::indexes() { acc = .. }` ↦ (List.finRange n).foldl;  `for i .. { p[i] /= s }` ↦\n"
                "  Vector.ofFn fun i => p[i] / s;  a `&mut` parameter is returned;  `if c { return e; }` ↦ if c then e else ..;\n"
                "  `match op { A | B if g => e, .. }` ↦ match op with | A | B => if g then e else ..\n"
+               "  eq_<Type> ([CmpScalar α]): marker of the derived (Simplex, OpinionBase, MArr1-3) / hand-written (MArrD1-3) `==`;\n"
+               "  containers are row-major flattened tables, their `==` is the cell-wise Cmp.tabEq; exists only while the\n"
+               "  convention guard (derive line / `self.inner == other.inner`) holds.\n"
                "  Tie theorems: SLV/Gen/MulTie.lean.\n"},
 }
 
